@@ -280,6 +280,17 @@ def run_bn_history(case, drv):
                 except ValueError:
                     pass
             elif k == "randcpds":
+                if len(bn.nodes()) >= 2 and step_i % 2 == 0:
+                    # a cardinality dict that misses one variable is rejected; the refusal leaves the model as it was
+                    order = list(bn.nodes())
+                    miss = order[-1] if step_i % 4 == 0 else order[len(order) // 2]
+                    try:
+                        bn.get_random_cpds(n_states={v: card[pn.index(v)] for v in order if v != miss}, inplace=True)
+                        return fail(f"step {step_i} get_random_cpds accepted a cardinality dict without {miss!r}")
+                    except ValueError as e:
+                        n_err += 1
+                        if impl_snapshot(bn) != before[w]:
+                            return fail(f"step {step_i} get_random_cpds: the call was rejected ({e}) but it changed the model's CPDs")
                 if len(bn.nodes()) and all(v in bn.nodes() for v in bn.nodes()):
                     bn.get_random_cpds(n_states={v: card[pn.index(v)] for v in bn.nodes()}, inplace=True)
                     # values are random: adopt them into the model state after checking structure and validity
